@@ -166,7 +166,7 @@ func simConfig(s *scn.Scenario) zzsim.Config {
 		Mode: s.Sched.Mode, Seed: s.Sched.Seed, Mean: s.Sched.Mean, PCTDepth: s.Sched.Depth, Horizon: s.Sched.Horizon,
 		Replay: s.Sched.Replay, Tape: s.Sched.Tape, Pipe: s.Sched.Pipe,
 		FaultSeed: s.Faults.Seed, FaultReplay: s.Faults.Replay, FaultTape: s.Faults.Tape, GCSteps: s.Faults.GCSteps,
-		Clock: usesClock, ClockTick: s.Sched.ClockTick, ClockJumps: s.Faults.ClockJumps,
+		Clock: usesClock, ClockTick: s.Sched.ClockTick, ClockJumps: s.Faults.ClockJumps, Stalls: s.Faults.Stalls,
 	}
 }
 
